@@ -14,7 +14,7 @@ Model of `pyyeti.nastran.n2p.formrbe3` (property C14), including the `UM_List` v
 * `umIndep`, `umMixed`      the two re-partitions of `formrbe3` for an m-set inside the independent set
                             (`solve(rbe3_um, [I, -rbe3_n])`) and for a mixed m-set (`A B C D` blocks);
 * `umPlan`                  the DOF bookkeeping (`mat_intersect`, `index2bool`, `flippv`, the two
-                            truth tests on index arrays) as exact `Nat`-list code;
+                            emptiness tests `dpv_m.size == 0`, `ipv_m.size == 0`) as exact `Nat`-list code;
 * `formRbe3`                everything together on lists (what `Drivers/C14.lean` runs at `Float`).
 
 `solve` is the external kernel `scipy.linalg.solve`: a parameter.  The theorems quantify over every
@@ -175,9 +175,6 @@ def complIdx (pv : List Nat) (n : Nat) : List Nat := (List.range n).filter fun i
 /-- `index2bool(pv, n)` as an ascending index list -/
 def maskIdx (pv : List Nat) (n : Nat) : List Nat := (List.range n).filter fun i => pv.contains i
 
-/-- Python truth test `arr.any()` on an index array: some index is non-zero -/
-def anyNonzero (pv : List Nat) : Bool := pv.any (· != 0)
-
 inductive UmBranch where
   | indep | dep | mixed
   deriving DecidableEq, Repr
@@ -199,7 +196,7 @@ DOF that is not independent). -/
 def umPlan (ddof idof mdof : List Nat) (nuset : Nat) : Option UmPlan :=
   let key (l : List Nat) (i : Nat) : Nat := l.getD i 0
   let dpv := positions ddof mdof
-  if !anyNonzero dpv then
+  if dpv.isEmpty then
     -- "this works when the m-set is a subset of the independent set"
     if mdof.all idof.contains then
       let mpv := positions idof mdof
@@ -209,7 +206,7 @@ def umPlan (ddof idof mdof : List Nat) (nuset : Nat) : Option UmPlan :=
     else none
   else
     let ipv := positions idof mdof
-    if !anyNonzero ipv then
+    if ipv.isEmpty then
       some ⟨.dep, dpv, [], [], [], List.range dpv.length, List.range idof.length⟩
     else
       let dm := maskIdx dpv ddof.length
